@@ -14,7 +14,9 @@
 (***************************************************************************)
 EXTENDS Integers, Sequences, FiniteSets, TLC
 
-CONSTANT ValidateTTL
+CONSTANTS ValidateTTL,
+          FamilyCheck     \* TRUE: a resolved address is used only if it belongs to the requested family (FALSE models the code before the fix:
+                          \* with ipv6 requested the FIRST address was taken whatever its family)
 
 T4 == "198.51.100.9"
 T6 == "2001:db8:99::9"
@@ -71,19 +73,40 @@ Code(proto, method, mn, mx, port, host) ==
        ELSE [reject |-> FALSE, min |-> emn, max |-> emx, addr |-> hr.addr, port |-> IF proto = "icmp" THEN 0 ELSE eport,
              kind |-> CASE proto = "icmp" -> "echo_req" [] proto = "udp" -> "udp" [] m2 \in {"sack", "prefer_sack"} -> "sack" [] OTHER -> "syn"]
 
+\* ---- host names (resolved through the resolver: /etc/hosts of the harness namespace) -------------------------------
+\* a4 / a6: the name's address of each family ("" = none); first: the address the resolver lists first
+NameTable == { [h |-> "four.test", a4 |-> T4, a6 |-> "", first |-> T4], [h |-> "six.test", a4 |-> "", a6 |-> T6, first |-> T6],
+               [h |-> "dual46.test", a4 |-> T4, a6 |-> T6, first |-> T4], [h |-> "dual64.test", a4 |-> T4, a6 |-> T6, first |-> T6],
+               [h |-> "nosuch.test", a4 |-> "", a6 |-> "", first |-> ""] }
+IsName(h) == \E r \in NameTable : r.h = h
+NameOf(h) == CHOOSE r \in NameTable : r.h = h
+Rejected(mn, mx) == [reject |-> TRUE, min |-> mn, max |-> mx, addr |-> "", port |-> 0, kind |-> "none"]
+\* the meaning: the request is executed against the name's address of the REQUESTED family, or rejected when there is none
+ExpectW(proto, method, mn, mx, port, host, w6) ==
+    IF ~IsName(host) THEN Expect(proto, method, mn, mx, port, host)
+    ELSE LET a == IF w6 THEN NameOf(host).a6 ELSE NameOf(host).a4 IN
+         IF a = "" THEN [Expect(proto, method, mn, mx, port, T4) EXCEPT !.reject = TRUE, !.addr = ""] ELSE Expect(proto, method, mn, mx, port, a)
+\* the code (parseTarget): literal -> as is; name -> LookupIP, then the first address that passes the family test
+CodeW(proto, method, mn, mx, port, host, w6) ==
+    IF ~IsName(host) THEN Code(proto, method, mn, mx, port, host)
+    ELSE LET n == NameOf(host)
+             a == IF w6 THEN (IF FamilyCheck THEN n.a6 ELSE n.first) ELSE n.a4 IN
+         IF a = "" THEN [Code(proto, method, mn, mx, port, T4) EXCEPT !.reject = TRUE, !.addr = "", !.port = 0, !.kind = "none"] ELSE Code(proto, method, mn, mx, port, a)
+
 ProtoVals == {"udp", "tcp", "icmp", "UDP", "TCP", "", "sctp"}
 MethodVals == {"", "syn", "sack", "prefer_sack", "syn_socket", "SYN", "x"}
 
 VARIABLES prm, dec
-Init == /\ prm \in [proto : ProtoVals, method : MethodVals, mn : TTLVals, mx : TTLVals, port : PortVals, host : {r.h : r \in HostTable}]
+Init == /\ prm \in [proto : ProtoVals, method : MethodVals, mn : TTLVals, mx : TTLVals, port : PortVals, host : {r.h : r \in HostTable}, w6 : {FALSE}]
+                   \cup [proto : ProtoVals, method : MethodVals, mn : {1}, mx : {3, 300}, port : {0, 443}, host : {r.h : r \in NameTable}, w6 : BOOLEAN]
         /\ dec = [reject |-> TRUE, min |-> 0, max |-> 0, addr |-> "", port |-> 0, kind |-> "unset"]
-Decide == dec.kind = "unset" /\ dec' = Code(prm.proto, prm.method, prm.mn, prm.mx, prm.port, prm.host) /\ UNCHANGED prm
+Decide == dec.kind = "unset" /\ dec' = CodeW(prm.proto, prm.method, prm.mn, prm.mx, prm.port, prm.host, prm.w6) /\ UNCHANGED prm
 Spec == Init /\ [][Decide]_<<prm, dec>>
 
 \* C19 at design level: the code accepts exactly what the property calls representable, and executes it as stated
 C19_Design ==
     dec.kind # "unset" =>
-        LET ex == Expect(prm.proto, prm.method, prm.mn, prm.mx, prm.port, prm.host) IN
+        LET ex == ExpectW(prm.proto, prm.method, prm.mn, prm.mx, prm.port, prm.host, prm.w6) IN
         /\ dec.reject = ex.reject
         /\ ~dec.reject => (dec.min = ex.min /\ dec.max = ex.max /\ dec.addr = ex.addr /\ dec.port = ex.port /\ dec.kind = ex.kind)
         /\ ~dec.reject => (dec.min \in 1..255 /\ dec.max \in 1..255 /\ dec.min <= dec.max)
